@@ -16,6 +16,7 @@ import (
 	"fmt"
 	"math/rand"
 	"os"
+	"path/filepath"
 	"reflect"
 	"runtime"
 	"sort"
@@ -38,6 +39,11 @@ func init() {
 		if json.Unmarshal(input, &c) != nil {
 			return
 		}
+		// main.go does not apply -driver in replay mode: use this tree's driver
+		if p := filepath.Join(c07Root(), "lean", ".lake", "build", "bin", "driver"); c07FileExists(p) {
+			driverPath = p
+		}
+		logger.Default = logger.Discard
 		c07SchedBatch(r, []c07ScCase{c}, true)
 	}
 	replayers["C07/sched-static"] = func(r *Result, input json.RawMessage) { c07CheckStaticCfg(r) }
@@ -110,6 +116,8 @@ func c07GenScCase(rng *rand.Rand) c07ScCase {
 	}
 	return c
 }
+
+func c07FileExists(p string) bool { _, err := os.Stat(p); return err == nil }
 
 func c07Only() string { return os.Getenv("C07_ONLY") }
 
